@@ -138,7 +138,7 @@ class EvalMixin(object):
             try:
                 r = self.eval(opn)
             finally:
-                del self.pc[mark:]
+                self.close_guard(mark, getattr(self, 'quant_vars', ()))
             rt = self.truth(r)
             if isinstance(rt, bool):
                 rt = tm.mk_bool(rt)
@@ -421,7 +421,7 @@ class EvalMixin(object):
                 try:
                     r = self.eval(n.operands[i + 1])
                 finally:
-                    del self.pc[mark:]
+                    self.close_guard(mark, getattr(self, 'quant_vars', ()))
             else:
                 if acc is False:
                     return False
